@@ -34,6 +34,8 @@ def main(args):
         return 0
     if cmd == "sensitivity":
         return sensitivity(args[1:])
+    if cmd == "noalarm":
+        return noalarm(args[1:])
     print("unknown selftest", cmd)
     return 2
 
@@ -210,3 +212,50 @@ def sensitivity(args):
             for name, pid, caught, kinds, wall in rows:
                 f.write(f"{name}\t{pid}\tcaught={caught}\t{','.join(kinds)}\t{wall}s\n")
     return 1 if missed else 0
+
+
+# --------------------------------------------------------------------------------------
+# no false alarms: property-preserving changes (legit/<id>/patch.diff) must pass the check
+# --------------------------------------------------------------------------------------
+
+
+def noalarm(args):
+    """noalarm [--tier T] [dirs...]: each legit/<id>/patch.diff keeps its property true, so the
+    registered check must exit 0 on a scratch copy of /repo with the patch applied."""
+    tier = "quick"
+    if "--tier" in args:
+        i = args.index("--tier")
+        tier = args[i + 1]
+        del args[i : i + 2]
+    dirs = args or sorted(glob.glob(os.path.join(core.VERIF_DIR, "legit", "*")))
+    alarms = 0
+    n = 0
+    for d in dirs:
+        patch = os.path.join(d, "patch.diff")
+        if not os.path.exists(patch):
+            continue
+        meta = json.load(open(os.path.join(d, "meta.json")))
+        scratch, repo = _scratch_copy()
+        try:
+            p = subprocess.run(["patch", "-p1", "-s", "-d", repo, "-i", os.path.abspath(patch)], stdout=subprocess.PIPE, stderr=subprocess.STDOUT)
+            if p.returncode != 0:
+                print(f"noalarm {os.path.basename(d)}: patch does not apply: {p.stdout.decode()[:200]}")
+                alarms += 1
+                continue
+            for pid in meta["properties"]:
+                env = dict(os.environ, VERIF_REPO=repo, VERIF_NO_EVIDENCE="1")
+                t0 = time.time()
+                q = subprocess.run(
+                    [sys.executable, os.path.join(core.VERIF_DIR, "sim", "cli.py"), "check", pid, "--tier", tier],
+                    env=env, stdout=subprocess.PIPE, stderr=subprocess.STDOUT, timeout=7200,
+                )
+                n += 1
+                ok = q.returncode == 0
+                print(f"noalarm {os.path.basename(d)} property={pid} quiet={ok} exit={q.returncode} wall={time.time()-t0:.1f}s", flush=True)
+                if not ok:
+                    alarms += 1
+                    print(q.stdout.decode()[-1500:])
+        finally:
+            shutil.rmtree(scratch, ignore_errors=True)
+    print(f"noalarm: {n} (change, property) pairs, alarms {alarms}")
+    return 1 if alarms else 0
